@@ -233,6 +233,18 @@ func (c06) Gen(r *sim.Rand, tier string, run uint64) *sim.Scenario {
 		if r.Chance(1, 2) {
 			ops = append([]sim.Op{{K: "setbase", N: []int64{int64(r.Intn(256)) << 16}}}, ops...)
 		}
+	} else if total > 0 && total < 0x8000 && r.Chance(1, 25) {
+		// the program ends on the last byte of its bank and a label is defined right behind it
+		// (at $bb+1:0000): jumps to it carry 0000, branches the plain distance
+		l := newLabel()
+		at := r.Intn(len(ops) + 1)
+		jmp := sim.Op{K: "ref", S: "JMP_abs", N: []int64{l}}
+		ops = append(ops[:at], append([]sim.Op{jmp}, ops[at:]...)...)
+		total += opSize(jmp)
+		ops = append(ops, sim.Op{K: "label", N: []int64{l}}, sim.Op{K: "finalize"})
+		base := int64(r.Intn(0x7F))<<16 | int64(0x10000-total)
+		ops = append([]sim.Op{{K: "setbase", N: []int64{base}}}, ops...)
+		sc.Cfg["bankend"] = 1
 	} else if set, base := genBase(r, total+8); set {
 		ops = append([]sim.Op{{K: "setbase", N: []int64{int64(base)}}}, ops...)
 	}
